@@ -194,6 +194,32 @@ theorem handleRead_request {L : Layout} (wf : WF L) (c : Ctx) (d : Dgram) (hreq 
   unfold handleRead
   rw [take_of_small wf.req_recv hreq.1, unpack_infoReq wf hreq]
 
+/-- everything `_handle_context_info_request_packet` can do -/
+theorem handleInfoRequest_cases (L : Layout) (c : Ctx) (d : Dgram) (p : Packet) :
+    handleInfoRequest L c d p = .noMatch ∨
+    (handleInfoRequest L c d p = .escaped .unicodeDecodeError ∧
+      (utf8Decode (cstr (p.fld 4)) = none ∨ utf8Decode (cstr (p.fld 5)) = none)) ∨
+    (handleInfoRequest L c d p = .escaped .valueError ∧
+      ¬ ((cstr (utf8Encode c.name)).length ≤ L.nameLen ∧ (cstr (utf8Encode c.workgroup)).length ≤ L.wgLen)) ∨
+    (∃ out, handleInfoRequest L c d p = .sent d.addr out) := by
+  unfold handleInfoRequest
+  cases h4 : utf8Decode (cstr (p.fld 4)) with
+  | none => exact Or.inr (Or.inl ⟨rfl, Or.inl rfl⟩)
+  | some wgf =>
+    simp only
+    split
+    · exact Or.inl rfl
+    · cases h5 : utf8Decode (cstr (p.fld 5)) with
+      | none => exact Or.inr (Or.inl ⟨rfl, Or.inr rfl⟩)
+      | some cnf =>
+        simp only
+        split
+        · exact Or.inl rfl
+        · cases hp : packResponse L d.rid d.now (leNat (p.fld 2)) (p.fld 3) c.pid (utf8Encode c.name) (utf8Encode c.workgroup) c.port with
+          | none => exact Or.inr (Or.inr (Or.inl ⟨rfl, (packResponse_none_iff _ _ _ _ _ _ _ _).1 hp⟩))
+          | some out => exact Or.inr (Or.inr (Or.inr ⟨out, rfl⟩))
+
+
 /-- answers iff both filters match, for names that fit the packet's name fields -/
 theorem respond_iff_of_fit {L : Layout} (wf : WF L) (c : Ctx) (d : Dgram) (wgf cnf : List Char)
     (hreq : IsInfoRequest L d.data) (hw : reqWgFilter L d.data = some wgf) (hc : reqCtxFilter L d.data = some cnf)
